@@ -398,7 +398,13 @@ def check_raise_guards(ctx, rep, rule):
             if cls not in n:
                 continue
             n[cls] += 1
-            conj = raise_guard_conjuncts(node, f.node)
+            from ..inline import expander
+            inl = expander(ctx, f)
+            conj0 = raise_guard_conjuncts(node, f.node)
+            conj = []
+            for c0 in conj0:
+                c1 = inl.expand(c0, node) if not isinstance(c0, ast.UnaryOp) or hasattr(c0, "lineno") else c0
+                conj += c1.values if isinstance(c1, ast.BoolOp) and isinstance(c1.op, ast.And) else [c1]
             has_tol = False
             has_target = False
             has_feas = False
@@ -644,6 +650,15 @@ def r76(ctx, rep, m, br, members):
     for node in ast.walk(br.node):
         if isinstance(node, ast.Dict) and node.keys and all(status_member(k) for k in node.keys if k is not None):
             table = node
+    table_use = table
+    if table is None:
+        # a module-level table referenced by the builder
+        for node in ast.walk(br.node):
+            if isinstance(node, ast.Name) and node.id in br.module.globals:
+                g = br.module.globals[node.id]
+                if isinstance(g, ast.Dict) and g.keys and all(status_member(k) for k in g.keys if k is not None):
+                    table = g
+                    table_use = node
     if table is None:
         raise AnalysisError("_build_result: message table not found")
     keys = [status_member(k) for k in table.keys]
@@ -680,7 +695,7 @@ def r76(ctx, rep, m, br, members):
             rep.bad("R7.6", f"doc row {v}")
             rep.finding("R7.6", m, f"docstring row {v}", m.node.lineno, f"documented status {v} has no enum member")
     # the lookup uses the status passed in
-    par = getattr(table, "_parent", None)
+    par = getattr(table_use, "_parent", None)
     ok = False
     while par is not None and not isinstance(par, ast.stmt):
         if isinstance(par, ast.Call) and isinstance(par.func, ast.Attribute) and par.func.attr == "get" and par.args and isinstance(par.args[0], ast.Name) and par.args[0].id == "status":
